@@ -105,33 +105,17 @@ theorem mulNat_eq_sumRep (fill : Ext) (n : Nat) (h : ExcludedFullLane fill n = f
         simp [sumRep] at this ⊢
         rw [← this]; rfl
 
-/-- **Statement_fill_contribution** (full strength): what an add-reduction adds to a lane for its unstored elements
-(the expression generated from `SparseArray.reduce`) is the sum of that many copies of the fill value — for every fill
-value (finite, ±inf, NaN) and every count, zero included. -/
-def Statement_fill_contribution : Prop := ∀ fill n, Gen.fillContribution fill n = sumRep fill n
-
-/-- **fill_contribution_partial.** Outside `ExcludedFullLane` (no unstored element in the lane AND a non-finite fill —
-the region of finding F-sum-nonfinite-fill) the statement holds for all fills and counts.  The proof goes through for
-the expression as it is today (`fill * missing`) and for the repaired one (`0 if missing == 0 else fill * missing`). -/
-theorem fill_contribution_partial (fill : Ext) (n : Nat) (h : ExcludedFullLane fill n = false) :
-    Gen.fillContribution fill n = sumRep fill n := by
-  have key := mulNat_eq_sumRep fill n h
+/-- **fill_contribution.** What an add-reduction adds to a lane for its unstored elements (the expression GENERATED from
+`SparseArray.reduce`) is the sum of that many copies of the fill value — for every fill value (finite, ±inf, NaN) and every
+count, zero included: a lane without unstored elements gets nothing added, whatever the fill.  (History: the code used to add
+`fill * 0`, NaN for a non-finite fill; the statement was then proved only outside `ExcludedFullLane`.  Reverting that
+repair changes the generated expression and this theorem fails.) -/
+theorem fill_contribution (fill : Ext) (n : Nat) : Gen.fillContribution fill n = sumRep fill n := by
   unfold Gen.fillContribution
-  first
-  | exact key
-  | (split
-     · rename_i h0; subst h0; rfl
-     · exact key)
-
-/-- **fill_contribution_counterexample.** If the generated expression gives NaN for a lane without unstored elements and
-fill `+inf` (today it does: `inf * 0`), the full statement is false — NumPy adds nothing there.  The check evaluates
-the premise with the compiled model and replays `sum(COO.from_numpy([[1,inf],[2,3]], fill_value=inf), axis=0)`. -/
-theorem fill_contribution_counterexample (h : Gen.fillContribution Ext.posInf 0 = Ext.nan) :
-    ¬ Statement_fill_contribution := by
-  intro hs
-  have := hs Ext.posInf 0
-  rw [h] at this
-  exact absurd this (by decide)
+  split
+  · rename_i h0; subst h0; rfl
+  · rename_i h0
+    exact mulNat_eq_sumRep fill n (by simp [ExcludedFullLane, h0])
 
 /-- non-vacuity of the excluded region and of its complement -/
 example : ExcludedFullLane Ext.posInf 0 = true ∧ ExcludedFullLane Ext.nan 3 = false ∧ ExcludedFullLane (Ext.fin 2) 0 = false ∧
